@@ -185,14 +185,18 @@ class View:
             sc = sc[i]["script"]
         return sc or []
 
-    def silent_thread_end(self, e):
+    def thread_base_end(self, e):
         """the class name when this execution — the script of an lcc.Thread, or a block inside one — was left by a
-        BaseException that is not an Exception (sys.exit() in the thread, GeneratorExit, a project's own BaseException):
-        `threading` lets such a thread die (SystemExit silently, the others through threading.excepthook) and
-        `lcc.Thread.run`, which only handles `Exception`, records nothing — the thread has ended, that is all"""
+        BaseException that is not an Exception (sys.exit() in the thread, GeneratorExit, a project's own BaseException)"""
         if in_side_thread(e.unit) and e.end_kind == "raise:exc" and isinstance(e.end_extra, dict):
             return e.end_extra.get("base")
         return None
+
+    def silent_thread_end(self, e):
+        """sys.exit() in an lcc.Thread is the regular way of ending a thread from the inside: `threading` ignores the
+        SystemExit, nothing is to be recorded — the thread has ended, that is all.  Any OTHER BaseException that ends the
+        target is an uncaught exception of the test like an Exception (fix D40: `Thread.run` logs it as an error)."""
+        return "SystemExit" if self.thread_base_end(e) == "SystemExit" else None
 
     def exec_failed(self, e, ignore_interrupted_threads=False):
         """did this execution record a failure (error log / failed check / raise), child threads included"""
@@ -478,8 +482,9 @@ def c02(project, obs, view=None):
             out.append(F("C02/passed-without-running-to-completion/" + loc[0], "%s is reported passed but %s" % (loc, why)))
     # an lcc.Thread whose target ends with a BaseException that is not an Exception: sys.exit() is the regular way of
     # ending a thread from the inside (nothing to report); any other class is an uncaught exception of user code
+    # (D40, repaired: `Thread.run` used to let it pass unrecorded)
     for e in v.execs:
-        base = v.silent_thread_end(e)
+        base = v.thread_base_end(e)
         if base and base != "SystemExit" and not is_block(e.unit):
             loc = v.location_of_task(e.task)
             res = _result_at(v, loc) if loc[0] not in ("pre_run", "none") else None
